@@ -230,6 +230,9 @@ class Ref:
                 yield self.read_lv(s, lv, fn), s
             return
         if isinstance(e, Un):
+            if e.op == '&':
+                if not isinstance(e.e, Var) or e.e.name not in self.gt: raise Unsupported('address of a non-global')
+                yield Val(K(self.addr_of(e.e.name), 16), 'u16'), st; return
             if e.op == '!':
                 for v, s in self.rvalue(st, e.e, fn, 0):
                     yield self.boolval(z3.Not(self.truth(v)), ctxw), s
